@@ -579,6 +579,7 @@ Definition patterned_progs (ps : list elt) : list (Z * elt) :=
    LOOP_CHECK elements at most; a model is found by its name among the <model name=…> of all files *)
 Definition spec_model (d : doc) (n : Z) : option elt :=
   find_map (fun it => match it with IModel e => if opt_Zeqb (e_name e) n then Some e else None | _ => None end) (items d).
+Definition doc_depth : nat := 3.     (* docs: "the maximum chain starting from the program section has been set to 3" *)
 Fixpoint spec_chain (d : doc) (e : elt) (depth : nat) : list elt :=
   match depth with
   | O => []
@@ -637,7 +638,7 @@ Definition spec_program_rules (d : doc) (o : oracle) (app proc : Z) (sfs0 rfs0 :
   match spec_program_select d o app proc with
   | None => None
   | Some sel =>
-      let chain := match sel with Some (e, _) => spec_chain d e loop_check_init | None => [] end in
+      let chain := match sel with Some (e, _) => spec_chain d e doc_depth | None => [] end in
       let is_pattern := match sel with Some (_, b) => b | None => false end in
       let start := first_valid f_start valid_sequence chain gr_proc_start_default in
       let required := first_valid f_required valid_bool chain gr_proc_required_default in
@@ -666,7 +667,7 @@ Definition class_sign_kept (aliases : alist (list Z)) (chain : list elt) : bool 
 
 Definition program_chain (d : doc) (o : oracle) (app proc : Z) : list elt :=
   match spec_program_select d o app proc with
-  | Some (Some (e, _)) => spec_chain d e loop_check_init
+  | Some (Some (e, _)) => spec_chain d e doc_depth
   | _ => []
   end.
 
